@@ -15,6 +15,7 @@ verus! {
 // shims (R11 / R13): assumed contracts, kept as weak as is true of the real thing
 // =====================================================================================
 #[verifier::external_body]
+#[derive(Debug)]
 pub struct IoError { _p: u8 }
 pub type IoResult<T> = Result<T, IoError>;
 
@@ -276,6 +277,7 @@ fn update(&mut self, Tracked(mb): Tracked<&mut MbTok<R>>, Ghost(g): Ghost<G>) ->
         
         r is Ok && !g.sw && old(self).buffer_state is NotStarted ==>
             (if old(self).inmemory { final(self).buffer_state is InMemory } else { final(self).buffer_state is Temp }),
+        
         r is Ok && !g.sw && !(old(self).buffer_state is NotStarted) ==> final(self).buffer_state == old(self).buffer_state,
 {
         match &mut self.buffer_state {
@@ -332,17 +334,24 @@ fn write(&mut self, buf: &[u8], Tracked(mb): Tracked<&mut MbTok<R>>, Ghost(g): G
         
         r matches Ok(n) ==> proto(final(self).buffer_state, final(mb).held(), g_written(g, buf@.subrange(0, n as int))),
         
-        r matches Ok(n) ==> final(mb).held() is None && !(final(self).buffer_state is NotStarted)
-            && (g.sw ==> final(self).buffer_state is Real),
+        r is Ok ==> final(mb).held() is None,
+        
+        r is Ok ==> !(final(self).buffer_state is NotStarted),
+        
+        r is Ok && g.sw ==> final(self).buffer_state is Real,
 {
         self.update(Tracked(mb), Ghost(g))?;
         loop 
             invariant
                 
                 proto(self.buffer_state, mb.held(), g),
+                
                 mb.held() is None,
+                
                 !(self.buffer_state is NotStarted),
+                
                 g.sw ==> self.buffer_state is Real,
+                
                 self.closed == old(self).closed, self.real_file == old(self).real_file,
                 self.inmemory == old(self).inmemory, mb.id() == old(mb).id(),
                 mb.ops() <= old(mb).ops() + 1,
@@ -350,6 +359,8 @@ fn write(&mut self, buf: &[u8], Tracked(mb): Tracked<&mut MbTok<R>>, Ghost(g): G
                 
                 0int,
 {
+
+            assert(!(self.buffer_state is NotStarted)); 
             match self.buffer_state {
                 BufferState::NotStarted => vpanic(),
                 BufferState::InMemory(ref mut data) => return data.write(buf),
@@ -419,6 +430,8 @@ pub fn switch(&mut self, new_file: R, Tracked(mb): Tracked<&mut MbTok<R>>, Ghost
         proto(st, final(mb).held(), g_switched(g, new_file.bytes())),
 {
         if self.real_file.swap1(Tracked(mb),Some(new_file)).is_some() {
+
+            assert(false); 
             vpanic();
         }
     }
@@ -431,7 +444,9 @@ pub fn is_real_file_ready(&self, Tracked(cl): Tracked<&mut ClTok<R>>) -> (r: boo
         
         r == (old(cl).val() is Some),
         
-        final(cl).val() == old(cl).val(), final(cl).id() == old(cl).id(), final(cl).locks() == old(cl).locks() + 1,
+        final(cl).val() == old(cl).val(),
+        
+        final(cl).id() == old(cl).id(), final(cl).locks() == old(cl).locks() + 1,
 {
         let closed = self.closed.lock(Tracked(cl));
 
@@ -452,6 +467,8 @@ pub fn len(&self, Tracked(cl): Tracked<&mut ClTok<R>>, Ghost(w): Ghost<Seq<u8>>)
         final(cl).id() == old(cl).id(), final(cl).locks() == old(cl).locks() + 1,
 {
         let mut closed = self.closed.wait_closed(Tracked(cl));
+
+        assert(*closed matches Some(st) && !(st is Real)); 
         let closed = closed.as_mut();
 
         match closed.unwrap() {
@@ -473,9 +490,12 @@ pub fn await_real_file(self, Tracked(mb): Tracked<&mut MbTok<R>>, Tracked(cl): T
         
         d.bytes() =~= g.d0 + g.w,
         
-        final(mb).held() is None, final(cl).val() is None,
+        final(mb).held() is None,
+        
+        final(cl).val() is None,
         
         final(mb).id() == old(mb).id(), final(cl).id() == old(cl).id(),
+        
         final(mb).ops() == old(mb).ops() + 1, final(cl).locks() == old(cl).locks() + 1,
 {
         let mut closed = self.closed.wait_closed(Tracked(cl));
@@ -483,6 +503,9 @@ pub fn await_real_file(self, Tracked(mb): Tracked<&mut MbTok<R>>, Tracked(cl): T
 
         let real_file = self.real_file.swap1(Tracked(mb),None);
 
+
+        assert(!(real_file is Some && closed is Real)); 
+        assert(real_file is Some || closed is Real); 
         match (real_file, closed) {
             (Some(mut real_file), BufferState::InMemory(data)) => {
                 // Switch was called but no writes have happened
@@ -522,17 +545,24 @@ pub fn expect_closed_write<O>(self, mut real_: &mut O, Tracked(mb): Tracked<&mut
         
         r is Ok ==> final(real_).bytes() =~= old(real_).bytes() + g.w,
         
-        final(mb).held() is None, final(cl).val() is None,
+        final(mb).held() is None,
+        
+        final(cl).val() is None,
         
         final(mb).id() == old(mb).id(), final(cl).id() == old(cl).id(),
+        
         final(mb).ops() == old(mb).ops() + 1, final(cl).locks() == old(cl).locks() + 1,
 {
         let mut closed_ = self.closed.wait_closed(Tracked(cl));
         let closed_ = closed_.take().unwrap();
 
         let real_file = self.real_file.swap1(Tracked(mb),None);
+
+        assert(real_file is None); 
         assert(real_file.is_none());
 
+
+        assert(!(closed_ is Real)); 
         match closed_ {
             BufferState::Temp(mut closed_file) => {
                 closed_file.seek(SeekFrom::Start(0))?;
@@ -594,8 +624,9 @@ fn write_phase<R: Write>(writer: &mut TempFileBufferWriter<R>, writes: &Vec<Vec<
         final(writer).closed == old(writer).closed, final(writer).real_file == old(writer).real_file,
         final(writer).inmemory == old(writer).inmemory, final(mb).id() == old(mb).id(),
         
-        r matches Ok(a2) ==> a2@.len() == hi && accepted(a2@, writes@)
-            && proto(final(writer).buffer_state, final(mb).held(), G { sw: g.sw, d0: g.d0, w: flat(a2@) }),
+        r matches Ok(a2) ==> a2@.len() == hi && accepted(a2@, writes@),
+        
+        r matches Ok(a2) ==> proto(final(writer).buffer_state, final(mb).held(), G { sw: g.sw, d0: g.d0, w: flat(a2@) }),
         
         final(mb).ops() <= old(mb).ops() + (hi - lo),
 {
@@ -640,8 +671,9 @@ fn driver_switch_at_k<R: Write>(buffer: TempFileBuffer<R>, writer: TempFileBuffe
         k <= writes@.len(),
     ensures
         
-        r matches Ok(p) ==> p.1@.len() == writes@.len() && accepted(p.1@, writes@)
-            && p.0.bytes() =~= dest.bytes() + flat(p.1@),
+        r matches Ok(p) ==> p.1@.len() == writes@.len() && accepted(p.1@, writes@),
+        
+        r matches Ok(p) ==> p.0.bytes() =~= dest.bytes() + flat(p.1@),
 {
     let mut buffer = buffer;
     let mut writer = writer;
@@ -670,8 +702,9 @@ fn driver_switch_after_drop<R: Write>(buffer: TempFileBuffer<R>, writer: TempFil
         fresh_pair(buffer, writer, mb, cl),
     ensures
         
-        r matches Ok(p) ==> p.1@.len() == writes@.len() && accepted(p.1@, writes@)
-            && p.0.bytes() =~= dest.bytes() + flat(p.1@),
+        r matches Ok(p) ==> p.1@.len() == writes@.len() && accepted(p.1@, writes@),
+        
+        r matches Ok(p) ==> p.0.bytes() =~= dest.bytes() + flat(p.1@),
 {
     let mut buffer = buffer;
     let mut writer = writer;
@@ -697,9 +730,11 @@ fn driver_never_switched<R: Write, O: Write>(buffer: TempFileBuffer<R>, writer: 
         fresh_pair(buffer, writer, mb, cl),
     ensures
         
-        r matches Ok(p) ==> p.1@.len() == writes@.len() && accepted(p.1@, writes@)
-            && final(out).bytes() =~= old(out).bytes() + flat(p.1@)
-            && p.0 as int == flat(p.1@).len(),
+        r matches Ok(p) ==> p.1@.len() == writes@.len() && accepted(p.1@, writes@),
+        
+        r matches Ok(p) ==> final(out).bytes() =~= old(out).bytes() + flat(p.1@),
+        
+        r matches Ok(p) ==> p.0 as int == flat(p.1@).len(),
 {
     let mut writer = writer;
     let tracked mut mb = mb;
@@ -762,7 +797,9 @@ fn driver_any_schedule<R: Write, O: Write>(buffer: TempFileBuffer<R>, writer: Te
         r matches Ok(p) ==> accepted_seq(p.1@, wbufs(ops@)),
         
         r matches Ok(p) ==> (has_switch(ops@) || late_switch) ==>
-            (p.0 matches Some(d) && d.bytes() =~= dest.bytes() + flat(p.1@) && final(out).bytes() =~= old(out).bytes()),
+            (p.0 matches Some(d) && d.bytes() =~= dest.bytes() + flat(p.1@)),
+        
+        r matches Ok(p) ==> (has_switch(ops@) || late_switch) ==> final(out).bytes() =~= old(out).bytes(),
         
         r matches Ok(p) ==> !(has_switch(ops@) || late_switch) ==>
             (p.0 is None && final(out).bytes() =~= old(out).bytes() + flat(p.1@)),
